@@ -1375,8 +1375,12 @@ static int32_t write_literal(void *context, const char *text, int length, int wr
  *        @li @c -CIF_ERROR for most other failures
  */
 static int32_t write_uliteral(void *context, const UChar *text, int length, int wrap) {
+    /* the number of code units to print; differs from the length in characters when the whole string is requested */
+    int units = length;
+
     if (length < 0) {
         length = u_countChar32(text, -1);
+        units = u_strlen(text);
     }
 
     if (length == 0) {
@@ -1397,7 +1401,7 @@ static int32_t write_uliteral(void *context, const UChar *text, int length, int 
             }
         }
 
-        nchars = u_fprintf(CONTEXT_UFILE(context), "%*.*S", length, length, text);
+        nchars = u_fprintf(CONTEXT_UFILE(context), "%*.*S", units, units, text);
         if (nchars > 0) {
             SET_LAST_COLUMN(context, last_column + nchars);
         }
